@@ -50,7 +50,16 @@ tapkee::TapkeeOutput embed_uniform(std::vector<int>& indices, VCallbacks& cb, ta
     FCb f{&cb};
     // assigned over the previous call's result (result = tapkee::embed(...)), then copied out
     tapkee::TapkeeOutput& held = carried_output();
-    held = tapkee::embed(indices.begin(), indices.end(), k, d, f, params);
+    // the samples are handed over as a sub-range of a larger container whose other elements are not samples at all: a callback
+    // invoked with one of them (element before begin, element at end, position arithmetic on the container) maps to no column
+    std::vector<int> padded;
+    padded.reserve(indices.size() + 5);
+    for (int i = 0; i < 3; ++i)
+        padded.push_back(NOT_A_SAMPLE);
+    padded.insert(padded.end(), indices.begin(), indices.end());
+    for (int i = 0; i < 2; ++i)
+        padded.push_back(NOT_A_SAMPLE);
+    held = tapkee::embed(padded.begin() + 3, padded.end() - 2, k, d, f, params);
     return held;
 }
 
